@@ -61,6 +61,9 @@ def site_lines(k: int, site: dict) -> tuple[list[str], int]:
         elif inner == "closure":
             emit("let run = || {")
             closers.append("CLOSURE")
+        elif inner == "asyncfn":
+            emit(f"async fn inner_{k}(opt: Option<i32>, d: String, p: &str) {{")
+            closers.append("}")
         elif inner == "spawn_blocking":
             emit("tokio::task::spawn_blocking(move || {")
             closers.append("});")
